@@ -29,7 +29,7 @@ ASSUMPTIONS = [
 RULE = ("cases = scripted multi-archetype programs (1-4 MPCalContexts) + an interleaving (one schedule entry = one op of one archetype), from one PRNG (VERIF_SEED): "
         "families locals (scalar and function-valued locals, retries, forced aborts, panicking ops), shared (scalar and function-valued LocalShared variables read and written whole or by index, lock contention, Go-channel resources, attempts whose PreCommit is refused by a fault-injecting wrapper), "
         "relay (values passed on over 2-3 hops through channels / shared variables / TCP mailboxes), mailbox (loopback TCP mailboxes, several senders, aborted sends and receives), "
-        "plus the corpus. Non-trivial = some attempt reads a value written or sent by another attempt (other archetype or earlier attempt); distinct by canonical case text.")
+        "rewrite (a section writes back the value a local / shared variable / cell of a shared function already has and then witnesses a third archetype; another attempt reads it), plus the corpus. Non-trivial = some attempt reads a value written or sent by another attempt (other archetype or earlier attempt); distinct by canonical case text.")
 
 # ---------------------------------------------------------------------------------------------- generators
 
@@ -289,6 +289,70 @@ def gen_mailbox_case(rng):
     return {"kind": "mailbox", "archs": archs, "shared": [0], "nchans": 1, "mboxes": [recv, sink], "sched": sched, "mbox_timeout_ms": 40}
 
 
+def gen_rewrite_case(rng):
+    """a section rewrites a variable with the value it already has, then witnesses a third archetype; another
+       archetype reads the variable afterwards (scalar shared variable, cell of a shared function, or - same
+       archetype, later attempt - a local)"""
+    st = {"n": 0}
+    form = rng.choice(["shr", "cell", "cell", "shr", "loc"])
+    idx = [2] if form == "cell" else []
+    shared = [{"map": [[1, rng.randint(0, 9)], [2, rng.randint(0, 9)]]} if form == "cell" else rng.randint(0, 9), 0]
+    var = ["loc", 0] if form == "loc" else ["shr", 0]
+    side = rng.choice(["chan", "shr1"])
+    Z, X, W, R = 0, 1, 2, 3
+    archs = [{"locals": [{"init": rng.randint(0, 9)}], "labels": []} for _ in range(4)]
+    # Z: the third archetype
+    zop = ["W", "out", 0, [], ["c", uniq(rng, st)]] if side == "chan" else ["W", "shr", 1, [], ["c", uniq(rng, st)]]
+    archs[Z]["labels"].append({"tries": [{"ops": [zop], "abort": False}]})
+    wit = ["R", "in", 0, []] if side == "chan" else ["R", "shr", 1, []]
+    sched = [Z, Z]
+    # X: an earlier writer of the variable (sometimes absent: W rewrites the initial value)
+    if form != "loc" and rng.random() < 0.6:
+        archs[X]["labels"].append({"tries": [{"ops": [["W"] + var + [idx, ["c", uniq(rng, st)]]], "abort": False}]})
+        sched += [X, X]
+    # W: read the variable, write the same value back (or write it twice: change and restore), then witness Z
+    rd = ["R"] + var + [idx]
+    same = ["W"] + var + [idx, ["l", 0]]
+    if rng.random() < 0.3:
+        wops = [rd, ["W"] + var + [idx, ["c", uniq(rng, st)]], same, wit]          # change and restore
+    else:
+        wops = [rd, same, wit]
+    if rng.random() < 0.25:
+        wops = [rd, wit, same]                                                       # witness first: fine in any case
+    tries = []
+    if rng.random() < 0.25:
+        tries.append({"ops": wops[:rng.randint(1, len(wops))], "abort": True})
+    tries.append({"ops": wops, "abort": False})
+    archs[W]["labels"].append({"tries": tries})
+    sched += [W] * sum(len(t["ops"]) + 1 for t in tries)
+    # reader: another archetype (for a local: the same archetype in its next attempt)
+    if form == "loc":
+        archs[W]["labels"].append({"tries": [{"ops": [rd, ["W", "shr", 0, [], ["l", 0]]], "abort": False}]})
+        archs[R]["labels"].append({"tries": [{"ops": [["R", "shr", 0, []]], "abort": False}]})
+        sched += [W, W, W, R, R]
+    else:
+        archs[R]["labels"].append({"tries": [{"ops": [rd, ["W", "loc", 0, [], ["l", 0]]], "abort": False}]})
+        sched += [R, R, R]
+    return {"kind": "rewrite", "archs": archs, "shared": shared, "nchans": 1, "mboxes": [], "sched": sched}
+
+
+def sprinkle_rewrites(rng, case):
+    """in a generated case: after some read of a variable, write the same value back (["l", 0])"""
+    for ar in case["archs"]:
+        for l in ar["labels"]:
+            for t in l["tries"]:
+                out = []
+                for o in t["ops"]:
+                    out.append(o)
+                    if o[0] == "R" and o[1] in ("loc", "shr") and rng.random() < 0.25:
+                        decl = (ar["locals"][o[2]] if o[1] == "loc" else case["shared"][o[2]])
+                        if o[3] or not (isinstance(decl, dict) and decl.get("map")):      # not a whole function value
+                            out.append(["W", o[1], o[2], list(o[3]), ["l", 0]])
+                t["ops"] = out
+    case["sched"] = random_sched(rng, case["archs"], slack=1.6)
+    return case
+
+
 def corpus():
     out = []
     d = os.path.join(vlib.VERIF, "corpus", "C18")
@@ -502,12 +566,33 @@ def oracle(case, res):
                 continue
             wkind = {"loc": "loc", "shr": "shr", "in": "out", "box": "box"}[kind]
             cands = []
-            for wi, ew in enumerate(evs[:ri]):
-                if ew["abort"] or (kind == "loc" and ew["a"] != er["a"]):
+            if kind in ("loc", "shr"):
+                # a variable (or one cell of a function-valued variable): the value read is the one of the LAST write
+                # of that variable/cell, whatever the value (a write may store the value the variable already had).
+                # Shared variables are accessed under a lock held until the end of the section, so the event order of
+                # the recorder is the serial order; an own earlier write in the same attempt means no other writer.
+                def hits(x):
+                    return x[0] == "w" and x[1] == kind and x[2] == rid and (x[3] == idx or not x[3])
+                me = er["elems"].index((t, kind, rid, idx, val, old))
+                if any(hits(x) for x in er["elems"][:me]):
                     continue
-                pos = [p for p, x in enumerate(ew["elems"]) if x[0] == "w" and x[1] == wkind and x[2] == rid and x[3] == idx and x[4] == val]
-                if pos:
-                    cands.append((ew, pos))
+                for ew in reversed(evs[:ri]):
+                    if ew["abort"] or (kind == "loc" and ew["a"] != er["a"]):
+                        continue
+                    pos = [p for p, x in enumerate(ew["elems"]) if hits(x)]
+                    if pos:
+                        last = ew["elems"][pos[-1]]
+                        got = last[4] if last[3] == idx else (last[4][1].get(idx[0]) if isinstance(last[4], tuple) and idx else None)
+                        if got == val:
+                            cands.append((ew, pos))
+                        break
+            else:
+                for wi, ew in enumerate(evs[:ri]):
+                    if ew["abort"]:
+                        continue
+                    pos = [p for p, x in enumerate(ew["elems"]) if x[0] == "w" and x[1] == wkind and x[2] == rid and x[3] == idx and x[4] == val]
+                    if pos:
+                        cands.append((ew, pos))
             if not cands:
                 continue
             chk += 1
@@ -624,11 +709,15 @@ def run(ctx):
         cases = [rp["case"] if "case" in rp and rp["case"] else rp]
     else:
         cases = corpus()
-        n = {"locals": 120, "shared": 120, "relay": 90, "mailbox": 40} if quick else {"locals": 1500, "shared": 1500, "relay": 900, "mailbox": 300}
+        n = ({"locals": 110, "shared": 120, "relay": 90, "mailbox": 40, "rewrite": 40} if quick else
+             {"locals": 1400, "shared": 1500, "relay": 900, "mailbox": 300, "rewrite": 400})
         for _ in range(n["locals"]):
             cases.append(gen_locals_case(rng))
-        for _ in range(n["shared"]):
-            cases.append(gen_shared_case(rng))
+        for i in range(n["shared"]):
+            c = gen_shared_case(rng)
+            cases.append(sprinkle_rewrites(rng, c) if i % 3 == 0 else c)
+        for _ in range(n["rewrite"]):
+            cases.append(gen_rewrite_case(rng))
         for i in range(n["relay"]):
             cases.append(gen_relay_case(rng, with_box=(i % 3 == 0)))
         for _ in range(n["mailbox"]):
